@@ -319,4 +319,134 @@ aggregation_func_template! {
     aggregate_256 = (64, 256, DISPATCH_AGGREGATE_256);
 }
 
+/// Verification hooks (`--cfg fast_tlsh_verif`): direct, safe access to every
+/// bucket aggregation backend compiled into this build.
+#[cfg(fast_tlsh_verif)]
+pub mod verif {
+    /// Backend: naive.
+    pub const NAIVE: u8 = 0;
+    /// Backend: x86 SSE2.
+    pub const X86_SSE2: u8 = 2;
+    /// Backend: x86 SSSE3.
+    pub const X86_SSSE3: u8 = 3;
+    /// Backend: x86 AVX2.
+    pub const X86_AVX2: u8 = 4;
+
+    macro_rules! verif_aggregation_func_template {
+        {$($name:ident = ($size_small:literal, $size_large:literal);)*} => {
+            $(
+                #[doc = concat!(
+                    "Aggregate ", stringify!($size_large),
+                    " buckets with the specified backend ",
+                    "(returns [`false`] if the backend is unavailable)."
+                )]
+                pub fn $name(
+                    backend: u8,
+                    out: &mut [u8; $size_small],
+                    buckets: &[u32; $size_large],
+                    q1: u32,
+                    q2: u32,
+                    q3: u32,
+                ) -> bool {
+                    match backend {
+                        NAIVE => {
+                            super::naive::$name(out, buckets, q1, q2, q3);
+                            true
+                        }
+                        #[cfg(all(
+                            feature = "simd-per-arch",
+                            feature = "opt-simd-bucket-aggregation",
+                            any(target_arch = "x86", target_arch = "x86_64"),
+                            any(
+                                feature = "detect-features",
+                                all(
+                                    not(target_feature = "avx2"),
+                                    not(target_feature = "ssse3"),
+                                    target_feature = "sse2"
+                                )
+                            )
+                        ))]
+                        X86_SSE2 => {
+                            #[cfg(feature = "detect-features")]
+                            if !std::arch::is_x86_feature_detected!("sse2") {
+                                return false;
+                            }
+                            #[allow(unsafe_code)]
+                            unsafe {
+                                super::x86_sse2::$name(out, buckets, q1, q2, q3);
+                            }
+                            true
+                        }
+                        #[cfg(all(
+                            feature = "simd-per-arch",
+                            feature = "opt-simd-bucket-aggregation",
+                            any(target_arch = "x86", target_arch = "x86_64"),
+                            any(
+                                feature = "detect-features",
+                                all(not(target_feature = "avx2"), target_feature = "ssse3")
+                            )
+                        ))]
+                        X86_SSSE3 => {
+                            #[cfg(feature = "detect-features")]
+                            if !std::arch::is_x86_feature_detected!("ssse3") {
+                                return false;
+                            }
+                            #[allow(unsafe_code)]
+                            unsafe {
+                                super::x86_ssse3::$name(out, buckets, q1, q2, q3);
+                            }
+                            true
+                        }
+                        #[cfg(all(
+                            feature = "simd-per-arch",
+                            feature = "opt-simd-bucket-aggregation",
+                            any(target_arch = "x86", target_arch = "x86_64"),
+                            any(feature = "detect-features", target_feature = "avx2")
+                        ))]
+                        X86_AVX2 => {
+                            #[cfg(feature = "detect-features")]
+                            if !std::arch::is_x86_feature_detected!("avx2") {
+                                return false;
+                            }
+                            #[allow(unsafe_code)]
+                            unsafe {
+                                super::x86_avx2::$name(out, buckets, q1, q2, q3);
+                            }
+                            true
+                        }
+                        _ => false,
+                    }
+                }
+            )*
+        }
+    }
+
+    verif_aggregation_func_template! {
+        aggregate_48  = (12,  48);
+        aggregate_128 = (32, 128);
+        aggregate_256 = (64, 256);
+    }
+
+    /// Whether the dispatch cells (48, 128, 256 buckets) are initialized
+    /// ([`None`] if this build has no runtime dispatching).
+    pub fn dispatch_initialized() -> Option<(bool, bool, bool)> {
+        cfg_if::cfg_if! {
+            if #[cfg(all(
+                feature = "simd-per-arch",
+                feature = "opt-simd-bucket-aggregation",
+                feature = "detect-features",
+                any(target_arch = "x86", target_arch = "x86_64")
+            ))] {
+                Some((
+                    super::DISPATCH_AGGREGATE_48.get().is_some(),
+                    super::DISPATCH_AGGREGATE_128.get().is_some(),
+                    super::DISPATCH_AGGREGATE_256.get().is_some(),
+                ))
+            } else {
+                None
+            }
+        }
+    }
+}
+
 mod tests;
